@@ -403,10 +403,14 @@ func runC03Concurrent(c *sim.Ctx, t *testing.T) {
 	bs := c03Bindings(c)
 	desc := fmt.Sprintf("pattern %s message %s bindings %s", ref.Canon(pat), ref.Canon(msg), ref.Canon(map[string]interface{}(bs)))
 	c.PermuteOff = true // the order dimension belongs to C03/order; here the outcome must be comparable
-	sim.Install(c)
-	solo, serr := match.Match(pat, msg, bs)
-	sim.Uninstall()
-	want := canonResults(solo, serr)
+	// The reference call is made afterwards, on copies taken now: the concurrent calls are
+	// the first ever to see these pattern, message and bindings objects (anything the
+	// matcher might remember per object is cold when they start).
+	patCopy, msgCopy := typedCopy(pat), typedCopy(msg)
+	bsCopy := match.Bindings{}
+	for k, v := range bs {
+		bsCopy[k] = typedCopy(v)
+	}
 	before := snapshotArgs(pat, msg, bs)
 	ntasks := 2 + c.Intn(5, "ntasks")
 	reps := 1 + c.Intn(3, "reps")
@@ -429,6 +433,10 @@ func runC03Concurrent(c *sim.Ctx, t *testing.T) {
 		s.Run()
 		s.Drain(200)
 	})
+	sim.Install(c)
+	solo, serr := match.Match(patCopy, msgCopy, bsCopy)
+	sim.Uninstall()
+	want := canonResults(solo, serr)
 	for i, rs := range results {
 		for _, r := range rs {
 			if r != want {
@@ -447,4 +455,30 @@ func runC03Concurrent(c *sim.Ctx, t *testing.T) {
 	c.Path = ref.Canon(pat) + "|" + ref.Canon(msg) + fmt.Sprintf("|%016x", c.Sched.Hash)
 	c.Trivial = c.Sched.Switches == 0
 	c.Sample = map[string]interface{}{"pattern": pat, "message": msg, "bindings": bs, "tasks": ntasks, "outcome": want}
+}
+
+// typedCopy deep-copies a value built from maps and slices, keeping the Go type
+// of every scalar (int, int64, float64, ...) as it is.
+func typedCopy(x interface{}) interface{} {
+	switch v := x.(type) {
+	case map[string]interface{}:
+		m := make(map[string]interface{}, len(v))
+		for k, e := range v {
+			m[k] = typedCopy(e)
+		}
+		return m
+	case match.Bindings:
+		m := make(match.Bindings, len(v))
+		for k, e := range v {
+			m[k] = typedCopy(e)
+		}
+		return m
+	case []interface{}:
+		a := make([]interface{}, len(v))
+		for i, e := range v {
+			a[i] = typedCopy(e)
+		}
+		return a
+	}
+	return x
 }
